@@ -14,6 +14,7 @@ import (
 	"testing"
 	"time"
 
+	dtlsServer "github.com/plgd-dev/go-coap/v3/dtls/server"
 	"github.com/plgd-dev/go-coap/v3/message"
 	"github.com/plgd-dev/go-coap/v3/message/codes"
 	"github.com/plgd-dev/go-coap/v3/message/pool"
@@ -21,6 +22,7 @@ import (
 	"github.com/plgd-dev/go-coap/v3/options"
 	"github.com/plgd-dev/go-coap/v3/tcp"
 	tcpClient "github.com/plgd-dev/go-coap/v3/tcp/client"
+	tcpServer "github.com/plgd-dev/go-coap/v3/tcp/server"
 	"github.com/plgd-dev/go-coap/v3/udp"
 	udpClient "github.com/plgd-dev/go-coap/v3/udp/client"
 	"pgregory.net/rapid"
@@ -47,6 +49,10 @@ type Scenario struct {
 	Good  int    `json:"good"`
 	Bad   int    `json:"bad"`
 	Steps []Step `json:"steps"`
+	// KeepAlive > 0: the server is configured with WithKeepAlive(KeepAlive retries); "tick" steps let a
+	// keep-alive period pass and run the housekeeping. The well-behaved clients answer pings (the
+	// library does), the hostile peers never do.
+	KeepAlive int `json:"keepAlive,omitempty"`
 }
 
 type poster interface {
@@ -76,14 +82,24 @@ func Exec(t *testing.T, sc Scenario, r *evid.Run) *evid.Failure {
 			_ = set(codes.Changed, append([]byte("echo:"), b...))
 		}
 		var srv *srvsim.Server
+		const kaPeriod = 400 * time.Millisecond
 		if sc.Kind == "tcp" {
+			extra := []tcpServer.Option{options.WithMaxMessageSize(4096)}
+			if sc.KeepAlive > 0 {
+				extra = append(extra, options.WithKeepAlive(uint32(sc.KeepAlive), kaPeriod*time.Duration(sc.KeepAlive+1), func(cc *tcpClient.Conn) { _ = cc.Close() }))
+			}
 			srv = srvsim.StartTCP(func(w *responsewriter.ResponseWriter[*tcpClient.Conn], rq *pool.Message) {
 				echo(w.Conn().RemoteAddr().String(), rq, func(c codes.Code, b []byte) error { return w.SetResponse(c, message.TextPlain, bytes.NewReader(b)) })
-			}, options.WithMaxMessageSize(4096))
+			}, extra...)
 		} else {
+			extra := []dtlsServer.Option{options.WithMaxMessageSize(4096), options.WithDTLSHandshakeTimeout(20 * time.Second)}
+			if sc.KeepAlive > 0 {
+				extra = append(extra, options.WithKeepAlive(uint32(sc.KeepAlive), kaPeriod*time.Duration(sc.KeepAlive+1), func(cc *udpClient.Conn) { _ = cc.Close() }),
+					options.WithTransmission(1, time.Hour, 10))
+			}
 			srv = srvsim.StartDTLS(func(w *responsewriter.ResponseWriter[*udpClient.Conn], rq *pool.Message) {
 				echo(w.Conn().RemoteAddr().String(), rq, func(c codes.Code, b []byte) error { return w.SetResponse(c, message.TextPlain, bytes.NewReader(b)) })
-			}, options.WithMaxMessageSize(4096), options.WithDTLSHandshakeTimeout(20*time.Second))
+			}, extra...)
 		}
 		var ctk endpoints.Ticker
 		connect := func(name string) poster {
@@ -148,6 +164,9 @@ func Exec(t *testing.T, sc Scenario, r *evid.Run) *evid.Failure {
 				a := st.Actor % sc.Bad
 				data, _ := hex.DecodeString(st.Hex)
 				_, _ = bad[a].Write(data)
+			case "tick":
+				time.Sleep(kaPeriod + time.Millisecond)
+				srv.Tick.Tick()
 			case "close":
 				lastWasHostile = true
 				_ = bad[st.Actor%sc.Bad].Close()
@@ -323,9 +342,14 @@ func genHostile(t *rapid.T, stream bool) []byte {
 
 func gen(t *rapid.T) Scenario {
 	sc := Scenario{Kind: rapid.SampledFrom([]string{"tcp", "dtls"}).Draw(t, "kind"), Good: rapid.IntRange(2, 4).Draw(t, "good"), Bad: rapid.IntRange(1, 3).Draw(t, "bad")}
+	kinds := []string{"req", "req", "req", "bytes", "bytes", "bytes", "stall", "connectclose", "close"}
+	if rapid.IntRange(0, 2).Draw(t, "keepalive") == 0 {
+		sc.KeepAlive = rapid.IntRange(1, 2).Draw(t, "retries")
+		kinds = append(kinds, "tick", "tick", "tick", "tick")
+	}
 	n := rapid.IntRange(3, 20).Draw(t, "nsteps")
 	for i := 0; i < n; i++ {
-		st := Step{Kind: rapid.SampledFrom([]string{"req", "req", "req", "bytes", "bytes", "bytes", "stall", "connectclose", "close"}).Draw(t, "kind")}
+		st := Step{Kind: rapid.SampledFrom(kinds).Draw(t, "kind")}
 		switch st.Kind {
 		case "req":
 			st.Actor = rapid.IntRange(0, sc.Good-1).Draw(t, "who")
